@@ -33,13 +33,19 @@ TRUSTED = [
     "draw and every retry level is a shape condition of the extractor (the model threads one stream)",
 ]
 ASSUMPTIONS = [
-    "row numbers are valid (0 <= r < number of rows < 2^31) and the matrix has fewer than 2^31 columns (int32 numbers)",
+    "row numbers are valid (0 <= r < number of rows < 2^31) and the matrix has fewer than 2^31 columns (int32 numbers); the PRODUCT n_rows * n_cols "
+    "is not bounded (the model computes keys on Z; cases reach 1.5e10 cells)",
     "the relationship matrix is the one built by the dataset builder (sorted, no repeated pair); this is re-observed on every case",
 ]
 RULE = ("structured generator: 7/8 small matrices (0-7 rows x 0-7 columns, density from empty to fully dense with planted dense and empty rows and "
         "unused columns, row arrays with repeats of 0-10 entries, n in {None,0,1,2,3,4}, retry budget -1..5) and 1/8 'plentiful' matrices (3-16 rows x "
         "12-40 columns, every row observes at most half of the columns bar one planted dense row, request arrays of 8-100 rows with repeats, n in "
-        "{None,1,2,3}, budgets 6..44 chosen so that the ideal failure probability is mostly below 1e-9); 1-4 sample_negatives calls on ONE matrix object "
+        "{None,1,2,3}, budgets 6..44 chosen so that the ideal failure probability is mostly below 1e-9); every 20th case is a HUGE-BUT-SPARSE matrix "
+        "(n_rows x n_cols beyond 2^31, 2^32 or 2^33, sides up to 300000 declared as entity lists, 5-70 interactions): 1-3 victim rows (mostly without "
+        "any interaction) with 2-5 unobserved victim cells each, an observed cell of ANOTHER row planted at an alias of every victim cell under a "
+        "folding family (row-major r*n_cols+c or column-major c*n_rows+r modulo 2^31 / 2^32 (+-1..3 wraps), (r<<16)+c and (c<<16)+r exact or modulo "
+        "2^32), requests of 1-12 rows mostly from the victim rows, budgets 0-3 and 10, a scripted generator whose draws are aimed (3 in 4) at the "
+        "victim columns (popularity: at the records carrying them) or honest generators; 1-4 sample_negatives calls on ONE matrix object "
         "(half of the later calls repeat the previous request), both weightings (and the alias 'popularity'), verify on/off; the FORM of rng= is generated "
         "per call: recording Generator over PCG64, scripted Generator biased towards observed columns, int seed, SeedSequence, list-of-ints seed, plain "
         "Generator, BitGenerator, None with a global generator set (plain or recording); recorded forms are replayed through the Coq model, the others are "
@@ -120,6 +126,119 @@ def gen_plentiful(rng):
     return {"n_users": nu, "n_items": ni, "pairs": pairs, "calls": calls, "style": "plentiful"}
 
 
+# ---- huge-but-sparse matrices: the DIMENSIONS as a generated dimension -------------------------------------------------
+# The membership test folds (row, column) into ONE number.  Any such folding has cells that share a number once the matrix
+# is large enough for the arithmetic it uses; the families below are the classical ones.  A huge case plants observed cells
+# at the aliases of chosen unobserved 'victim' cells (mostly of rows without any interaction) and aims a scripted generator at
+# exactly those victim cells: a sound key (theorem key_injective, all numbers below 2^32) tells them apart.
+ALIAS_FAMILIES = [(("rowmajor", 2 ** 32), 6), (("rowmajor", 2 ** 31), 2), (("colmajor", 2 ** 32), 2), (("colmajor", 2 ** 31), 1),
+                  (("rowshift16", None), 1), (("rowshift16", 2 ** 32), 1), (("colshift16", None), 1), (("colshift16", 2 ** 32), 1)]
+HUGE_SIDES = [20011, 33000, 50000, 65536, 66000, 70000, 90000, 100003, 131072, 150000, 200000]
+HUGE_MAX_SIDE = 300000
+MODES_HUGE = [("scripted", 8), ("pcg", 2), ("int", 1), ("generator", 1), ("none-global-rec", 1)]
+
+
+def alias_cells(nu, ni, r, c, kind, mod):
+    """cells (r2, c2) != (r, c) of an nu x ni matrix whose combined number major*S + minor equals that of (r, c), exactly
+    (mod None) or modulo `mod`.  rowmajor: r*ni + c; colmajor: c*nu + r; rowshift16: (r << 16) + c; colshift16: (c << 16) + r."""
+    rowwise = kind.startswith("row")
+    S = {"rowmajor": ni, "colmajor": nu, "rowshift16": 1 << 16, "colshift16": 1 << 16}[kind]
+    major, minor, nmaj, nmin = (r, c, nu, ni) if rowwise else (c, r, ni, nu)
+    t = major * S + minor
+    out = []
+    for k in (0, 1, -1, 2, -2, 3, -3):
+        if k and not mod:
+            continue
+        T = t + k * (mod or 0)
+        if T < 0:
+            continue
+        lo, hi = max(0, -((nmin - 1 - T) // S)), min(nmaj - 1, T // S)
+        for mj in sorted(set(range(lo, min(hi, lo + 2) + 1)) | set(range(max(lo, hi - 2), hi + 1))):
+            mn = T - mj * S
+            if 0 <= mn < nmin and (mj, mn) != (major, minor):
+                cell = (mj, mn) if rowwise else (mn, mj)
+                if cell not in out:
+                    out.append(cell)
+    return out
+
+
+def gen_huge(rng):
+    """n_rows x n_cols beyond 2^31, 2^32 or 2^33 with tens of interactions (entity lists are pre-declared, so the case costs
+    ~50 ms); victim cells (unobserved) whose aliases under a folding family are observed cells of OTHER rows; requests for the
+    victim rows with a scripted generator aimed at the victim columns (plus honest generators)."""
+    for _ in range(40):
+        band = rng.weighted([(2 ** 31, 2), (2 ** 32, 5), (2 ** 33, 3)])
+        cells = band * (100 + rng.randint(2, 70)) // 100
+        a = rng.choice(HUGE_SIDES) + (rng.below(40) if rng.chance(1, 2) else 0)
+        b = cells // a + 1 + rng.below(500)
+        if max(a, b) <= HUGE_MAX_SIDE:
+            break
+    else:
+        a, b, band = 100000, 100000, 2 ** 33
+    nu, ni = (b, a) if rng.chance(2, 3) else (a, b)
+    pairs, victims, vrows = set(), [], []
+    for _ in range(rng.weighted([(1, 2), (2, 3), (3, 1)])):
+        r = rng.below(nu)
+        vrows.append(r)
+        if rng.chance(1, 4):            # a victim row with a few interactions of its own
+            for _ in range(rng.randint(1, 3)):
+                pairs.add((r, rng.below(ni)))
+        for _ in range(rng.randint(2, 5)):
+            c = rng.weighted([(0, 1), (ni - 1, 1), (rng.below(ni), 8)])
+            fams = [rng.weighted(ALIAS_FAMILIES)] + rng.shuffle([f for f, _ in ALIAS_FAMILIES])
+            for kind, mod in fams:
+                al = [x for x in alias_cells(nu, ni, r, c, kind, mod) if x[0] not in vrows]
+                if al:
+                    pairs.add(rng.choice(al))
+                    victims.append([r, c, kind + ("" if mod is None else f"/2^{mod.bit_length() - 1}")])
+                    break
+            else:
+                victims.append([r, c, "none"])
+            if rng.chance(1, 2):        # the victim column occurs in the data, so popularity weighting can draw it
+                r2 = rng.below(nu)
+                if r2 not in vrows:
+                    pairs.add((r2, c))
+    for _ in range(rng.randint(3, 30)):
+        r2 = rng.below(nu)
+        if r2 not in vrows:
+            pairs.add((r2, rng.below(ni)))
+    vcells = {(v[0], v[1]) for v in victims}
+    pairs = {p for p in pairs if p not in vcells}
+    dense_row = None
+    if rng.chance(1, 3) and pairs:      # a row observing every column that occurs: dense for popularity weighting (a true failure)
+        dense_row = rng.below(nu)
+        if dense_row not in vrows:
+            pairs |= {(dense_row, c) for _, c in pairs}
+        else:
+            dense_row = None
+    table = sorted(pairs)
+    other_rows = sorted({r for r, _ in pairs})
+
+    def gen_call(prev=None):
+        if prev is not None and rng.chance(1, 3):
+            call = dict(prev)
+            call["seed"] = rng.below(2 ** 32)
+            return call
+        nr = rng.weighted([(1, 2), (2, 2), (4, 3), (8, 3), (12, 1)])
+        rows = [rng.weighted([(rng.choice(vrows), 12), (rng.choice(other_rows) if other_rows else 0, 2),
+                              (dense_row if dense_row is not None else rng.choice(vrows), 1), (rng.below(nu), 1)]) for _ in range(nr)]
+        weighting = rng.weighted([("uniform", 5), ("popular", 2), ("popularity", 2)])
+        cols = [v[1] for v in victims if v[0] in rows] + [c for r, c in table if r in rows][:4]
+        if weighting == "uniform":
+            aim = cols
+        else:                           # a draw is a record number of the sorted table; its column is the record's column
+            aim = [i for i, (_, c) in enumerate(table) if c in cols]
+        return {"rows": rows, "weighting": weighting, "n": rng.weighted([(None, 4), (1, 1), (2, 2)]),
+                "att": rng.weighted([(0, 3), (1, 3), (2, 3), (3, 1), (10, 1)]), "verify": not rng.chance(1, 12),
+                "mode": rng.weighted(MODES_HUGE), "seed": rng.below(2 ** 32), "bias": 0, "aim": rng.shuffle(aim)[:12]}
+
+    calls = [gen_call()]
+    for _ in range(rng.weighted([(0, 2), (1, 3), (2, 2)])):
+        calls.append(gen_call(calls[-1]))
+    return {"n_users": nu, "n_items": ni, "pairs": [list(p) for p in rng.shuffle(table)], "calls": calls,
+            "style": f"huge>2^{band.bit_length() - 1}", "victims": victims}
+
+
 def gen_case(rng, malformed=False):
     if not malformed and rng.chance(1, 8):
         return gen_plentiful(rng)
@@ -183,7 +302,8 @@ def calls_of(case):
 
 def gen_cases(rng, tier):
     n = 1000 if tier == "quick" else 8000
-    return [gen_case(rng.fork(k), malformed=(k % 25 == 24)) for k in range(n)]
+    # every 20th case is a huge-but-sparse matrix (its own fork of the stream: the other cases are the ones generated before)
+    return [gen_huge(rng.fork(f"huge{k}")) if k % 20 == 7 else gen_case(rng.fork(k), malformed=(k % 25 == 24)) for k in range(n)]
 
 
 # ---------------------------------------------------------------------------------------------
@@ -219,10 +339,11 @@ def _setup():
     class Scripted(np.random.Generator):
         "a stream chosen by the harness (allowed by the generator contract): draws concentrated on low numbers"
 
-        def __init__(self, seed, bias):
+        def __init__(self, seed, bias, aim=()):
             super().__init__(np.random.PCG64(0))
             self.src = Rng(seed)
             self.bias = bias
+            self.aim = list(aim)         # draw values the stream concentrates on (cells the case wants probed)
             self.log = []
 
         def choice(self, a, size=None, replace=True, p=None, axis=0, shuffle=True):
@@ -238,6 +359,8 @@ def _setup():
                 x = self.src.next() % a
                 if self.bias and self.src.chance(2, 3):
                     x = x % min(a, self.bias)
+                if self.aim and self.src.chance(3, 4):
+                    x = self.aim[self.src.below(len(self.aim))] % a
                 vals.append(x)
             self.log.append((a, list(vals)))
             return np.array(vals, dtype=np.int64).reshape(shape)
@@ -272,7 +395,7 @@ def make_rng(call):
         g = Recording(seed)
         return g, g
     if mode == "scripted":
-        g = Scripted(seed, call["bias"])
+        g = Scripted(seed, call["bias"], call.get("aim") or ())
         return g, g
     if mode == "int":
         return seed, None
@@ -407,7 +530,7 @@ def coq_term(case, obs):
 
 def rng_text(c):
     mode, seed = c["mode"], c["seed"]
-    return {"pcg": f"<recording Generator(PCG64({seed}))>", "scripted": f"<scripted Generator {seed} bias {c.get('bias')}>",
+    return {"pcg": f"<recording Generator(PCG64({seed}))>", "scripted": f"<scripted Generator {seed} bias {c.get('bias')}" + (f" aimed at draws {c['aim']}" if c.get("aim") else "") + ">",
             "int": f"{seed}", "seedseq": f"np.random.SeedSequence({seed})",
             "intlist": f"{[seed & 0xFFFF, (seed >> 16) & 0xFFFF, 7]}", "generator": f"np.random.default_rng({seed})",
             "bitgen": f"np.random.PCG64({seed})", "none-global": f"None after lenskit.random.set_global_rng({seed})",
@@ -495,8 +618,11 @@ def call_oracle(case, calls, k, obs, observed):
             v.append(("observed-without-warning" + later,
                       f"{len(bad_cells)} returned cell(s) {bad_cells[:4]} are observed interactions and this call raised no DataWarning: {where}"))
         if obs["warnings"] and not bad_cells:
+            nobs = {r: sum(1 for rr, _ in observed if rr == r) for r in set(call["rows"])}
             v.append(("warning-without-failure" + later,
-                      f"a DataWarning reported missing negatives but every returned cell is a true negative: {where}"))
+                      f"a DataWarning reported missing negatives for {obs['warnings']} users but every returned cell is a true negative "
+                      f"(matrix {case['n_users']} x {case['n_items']}, {len(observed)} interactions; interactions of the requested rows: "
+                      f"{dict(sorted(nobs.items()))}): {where}"))
     elif obs["warnings"]:
         v.append(("warning-unverified" + later, f"a verification warning was raised with verify=False: {where}"))
     if call["verify"] and call["mode"] in HONEST and cells > 0:
@@ -546,7 +672,7 @@ def call_nontrivial(case, call, obs, observed):
         return False
     cells = len(call["rows"]) * (1 if call["n"] is None else call["n"])
     ndraws = sum(len(vs) for _, vs in obs["draws"])
-    mixed = any(0 < sum(1 for i in range(case["n_items"]) if (r, i) in observed) < case["n_items"] for r in set(call["rows"]))
+    mixed = any(0 < sum(1 for rr, _ in observed if rr == r) < case["n_items"] for r in set(call["rows"]))
     if call["mode"] not in RECORDED:
         # draws are invisible: the call counts when the quantified plentiful clause was actually judged on a mixed row
         prow, _ = plentiful_judgement(case, call, observed)
@@ -576,7 +702,7 @@ def counters(case, obs):
         if o["error"] == 0:
             yield "warnings=" + str(min(len(o["warnings"]), 3))
             yield "resample-rounds=" + str(min(max(len(o["draws"]) - 1, 0), 6))
-            if any(all((r, i) in observed for i in range(case["n_items"])) for r in call["rows"]) and case["n_items"]:
+            if case["n_items"] and any(sum(1 for rr, _ in observed if rr == r) == case["n_items"] for r in set(call["rows"])):
                 yield "has-fully-dense-requested-row"
             if len(set(call["rows"])) < len(call["rows"]):
                 yield "repeated-rows"
@@ -593,6 +719,19 @@ def counters(case, obs):
                 if nwarned > 1:
                     yield "call-warning-after-an-earlier-warning-on-the-same-matrix"
     yield "calls-that-warned=" + str(min(nwarned, 3))
+    if case.get("victims"):
+        # huge-but-sparse case: unobserved cells whose alias under a folding family is an observed cell of another row
+        vfam = {(v[0], v[1]): v[2] for v in case["victims"]}
+        for f in sorted(set(vfam.values())):
+            yield "huge:alias-family=" + f
+        yield "huge:max-side=" + ("<=2^16" if max(case["n_users"], case["n_items"]) <= 65536 else "<=2^17" if max(case["n_users"], case["n_items"]) <= 131072 else ">2^17")
+        for call, o in zip(calls, obs["calls"]):
+            if o["error"] == 0 and o.get("cols"):
+                got = {vfam[(r, c)] for col in o["cols"] for r, c in zip(call["rows"], col) if (r, c) in vfam}
+                for f in sorted(got):
+                    yield "huge:aliased-cell-returned=" + f + ("/verified" if call["verify"] else "")
+                if call["rows"] and all(not any(rr == r for rr, _ in observed) for r in set(call["rows"])):
+                    yield "huge:call-on-rows-without-interactions"
 
 
 def sample(case, obs):
